@@ -559,6 +559,11 @@ type poolA struct {
 	jobs chan jobA
 	r    *eng.Run
 	once sync.Once
+	softStop time.Time // part (a) stops expanding here so that part (b) gets its share of the budget (coverage only, never a verdict)
+}
+
+func (p *poolA) expired() bool {
+	return p.r.Expired() || (!p.softStop.IsZero() && time.Now().After(p.softStop))
 }
 
 func (p *poolA) start() {
@@ -576,7 +581,7 @@ func (p *poolA) start() {
 			}
 			rd := bufio.NewReaderSize(stdout, 1<<20)
 			for j := range p.jobs {
-				if !p.r.Expired() {
+				if !p.expired() {
 					b, _ := json.Marshal(j.rq)
 					stdin.Write(append(b, '\n'))
 					line, err := rd.ReadBytes('\n')
@@ -611,7 +616,7 @@ func (p *poolA) expandAll(reqs []reqA) []repA {
 	done := make([]bool, len(reqs))
 	if p.bin == "" || p.n <= 1 {
 		for i, rq := range reqs {
-			if p.r.Expired() {
+			if p.expired() {
 				break
 			}
 			out[i], done[i] = expandA(rq), true
@@ -653,6 +658,10 @@ func partA(r *eng.Run) {
 	maxStates := eng.Pick(r, 0, 4000) // per configuration and level (thorough)
 	cfgs := configsA()
 	pool := &poolA{n: runtime.NumCPU(), bin: os.Getenv("VERIF_BIN"), r: r}
+	if d := r.DeadlineUnix(); d > 0 {
+		now := time.Now()
+		pool.softStop = now.Add(time.Until(time.Unix(d, 0)) * 6 / 10) // 60 % of the budget for part (a)
+	}
 	defer pool.stop()
 	seen := map[string]map[string]bool{}
 	type node struct {
@@ -687,7 +696,7 @@ func partA(r *eng.Run) {
 		}
 		reps := pool.expandAll(reqs)
 		if reps == nil {
-			r.Incomplete(fmt.Sprintf("budget expired in part (a): all sequences to depth %d covered", depthDone))
+			r.Incomplete(fmt.Sprintf("budget share of part (a) used up: all sequences to depth %d covered", depthDone))
 			break
 		}
 		next := []node{}
